@@ -77,9 +77,9 @@ def _unwrap_mapped_annotation(type_hint: TypeHint) -> TypeHint:
     return type_hint
 
 
-def _get_type_for_column(column: "ColumnElement", type_hints: Mapping[str, TypeHint]):
+def _get_type_for_column(key: str, column: "ColumnElement", type_hints: Mapping[str, TypeHint]):
     try:
-        return _unwrap_mapped_annotation(type_hints[column.name])
+        return _unwrap_mapped_annotation(type_hints[key])
     except KeyError:
         if column.nullable:
             return Optional[column.type.python_type]
@@ -135,14 +135,15 @@ def _get_input_shape(
     autoincrement_column = _get_autoincrement_column(table)
     fields = []
     params = []
-    for column in columns:
+    # the key of the collection is the name of the mapped attribute, it can differ from the name of the column
+    for key, column in columns.items():
         if not isinstance(column, sqlalchemy.Column):
             continue
 
         fields.append(
             InputField(
-                id=column.key,
-                type=_get_type_for_column(column, type_hints),
+                id=key,
+                type=_get_type_for_column(key, column, type_hints),
                 default=_get_default(column.default),
                 is_required=_is_input_required_for_column(column, autoincrement_column),
                 metadata=column.info,
@@ -151,8 +152,8 @@ def _get_input_shape(
         )
         params.append(
             Param(
-                field_id=column.key,
-                name=column.key,
+                field_id=key,
+                name=key,
                 kind=ParamKind.KW_ONLY,
             ),
         )
@@ -197,14 +198,14 @@ def _get_output_shape(
 ) -> OutputShape:
     output_fields = [
         OutputField(
-            id=column.name,
-            type=_get_type_for_column(column, type_hints),
+            id=key,
+            type=_get_type_for_column(key, column, type_hints),
             default=_get_default(column.default),
             metadata=column.info,
             original=IdWrapper(column),
-            accessor=create_attr_accessor(column.name, is_required=True),
+            accessor=create_attr_accessor(key, is_required=True),
         )
-        for column in columns
+        for key, column in columns.items()
         if isinstance(column, sqlalchemy.Column)
     ]
     for relationship in relationships:
